@@ -24,14 +24,16 @@
 (*      cos (own cosigner index), watch (created from an account public    *)
 (*      key: no private key, one account, one witness type, one network).  *)
 (*                                                                         *)
-(* An action is a public call  a = [op, net, wt, acct, ch, n, idx]  with   *)
-(* the sequence `out` of positions of the keys it handed out:              *)
+(* An action is a public call  a = [op, net, wt, acct, ch, n, idx, form]    *)
+(* (form: how change and index were spelled, "path" | "args") with the     *)
+(* sequence `out` of positions of the keys it handed out:                  *)
 (*   new_keys      n fresh keys of a chain (new_key, new_key_change: n = 1)*)
 (*   get_keys      n unused keys of a chain, created where needed          *)
 (*   key_for_path  the n keys idx .. idx+n-1 of a chain, by position       *)
 (*   new_account   a new account (acct = -1: the wallet chooses the number)*)
 (*   mark_used     the key at idx of a chain received funds                *)
 (*   reopen        the wallet object is closed and opened again            *)
+(*   export        the account public key is exported (public_master)      *)
 (* Allowed(cfg, s, a, out) names the clause of the property the result     *)
 (* violates ("ok": none); After(cfg, s, a, out) is the successor state.    *)
 (* The model (MC_WalletKeys) and the trace validation (WalletKeysEval) use *)
@@ -126,7 +128,7 @@ MustRefuse(cfg, s, a) == a.op \in {"new_keys", "get_keys", "key_for_path", "new_
 \* requests a wallet may decline although they have an answer
 MayRefuse(cfg, s, a) ==
     \/ a.op = "new_account" /\ a.acct >= 0 /\ Acct(a.net, a.wt, a.acct) \in s.accts          \* the account exists
-    \/ a.op = "mark_used"
+    \/ a.op \in {"mark_used", "export"}
 
 Distinct(q) == \A i, j \in 1..Len(q) : i # j => q[i] # q[j]
 Contiguous(q) == \A i \in 2..Len(q) : q[i].idx = q[i - 1].idx + 1
@@ -156,7 +158,7 @@ Allowed(cfg, s, a, out) ==
            ELSE IF Acct(a.net, a.wt, out[1].acct) \in s.accts THEN "account-created-twice"
            ELSE "ok"
       [] a.op = "mark_used" -> IF Pos(c, a.idx) \in s.keys THEN "ok" ELSE "unknown-key-marked-used"
-      [] a.op = "reopen" -> "ok"
+      [] a.op \in {"reopen", "export"} -> "ok"
       [] OTHER -> "unknown-action"
 
 After(cfg, s, a, out) ==
@@ -170,6 +172,41 @@ After(cfg, s, a, out) ==
                      !.keys = @ \cup {Pos(Chain(x.net, x.wt, x.acct, 0), 0), Pos(Chain(x.net, x.wt, x.acct, 1), 0)}]
       [] a.op = "mark_used" -> [s EXCEPT !.used = @ \cup {Pos(c, a.idx)}]
       [] OTHER -> s
+
+
+(* ----------------------------- named deviations ----------------------------- *)
+(* What the implementation is known to do instead (known findings; the property is the specification without them). *)
+(* Both concern calls that create several keys at once: the second and later keys of the call are stored            *)
+(*  - DevBulkWt: with the witness type the version bytes of their parent's extended key denote first, which on      *)
+(*    networks whose extended-key versions (SLIP-132) do not tell all witness types apart is another one;            *)
+(*  - DevBulkChange: with change 0 when the change chain was given in the path ([1, i]) and the first key existed.   *)
+(* A wrong answer is attributed to a deviation only if undoing exactly its effect on the handed-out positions gives *)
+(* an answer the specification allows.                                                                               *)
+DevBulkWt     == "bulk-created-keys-stored-with-witness-type-of-key-version"
+DevBulkChange == "bulk-created-keys-stored-with-change-0"
+\* witness types whose extended private/public key version bytes coincide on a network (SLIP-132: Litecoin has Ltpv/Ltub
+\* and Mtpv/Mtub only, Litecoin testnet ttpv/ttub only)
+VersionClass(net, wt) == IF net \in {"litecoin", "litecoin_legacy"} THEN (IF wt = "legacy" THEN {"legacy"} ELSE {"p2sh-segwit", "segwit"})
+                         ELSE IF net = "litecoin_testnet" THEN WitnessTypes
+                         ELSE {wt}
+Repair(D, a, out) ==
+    [k \in 1..Len(out) |->
+        LET p  == out[k]
+            p1 == IF DevBulkWt \in D /\ k > 1 /\ p.net = a.net /\ p.wt \in VersionClass(a.net, a.wt) THEN [p EXCEPT !.wt = a.wt] ELSE p
+        IN IF DevBulkChange \in D /\ k > 1 /\ a.op = "key_for_path" /\ a.form = "path" /\ a.ch = 1 /\ p1.ch = 0 THEN [p1 EXCEPT !.ch = 1] ELSE p1]
+DevCombos == << <<DevBulkWt>>, <<DevBulkChange>>, <<DevBulkWt, DevBulkChange>> >>
+SeqSet(q) == {q[i] : i \in 1..Len(q)}
+Explains(cfg, s, a, out, ds) ==
+    /\ a.op \in {"new_keys", "get_keys", "key_for_path"} /\ Len(out) > 1
+    /\ \A i \in 1..Len(ds) : Repair({ds[i]}, a, out) # out                    \* every named deviation has an effect here
+    /\ (DevBulkChange \in SeqSet(ds) => Pos(ChainA(a), a.idx) \in s.keys)
+    /\ Allowed(cfg, s, a, Repair(SeqSet(ds), a, out)) = "ok"
+\* the deviations that explain a disallowed answer (<<>>: none does)
+Attribution(cfg, s, a, out) ==
+    IF Explains(cfg, s, a, out, DevCombos[1]) THEN DevCombos[1]
+    ELSE IF Explains(cfg, s, a, out, DevCombos[2]) THEN DevCombos[2]
+    ELSE IF Explains(cfg, s, a, out, DevCombos[3]) THEN DevCombos[3]
+    ELSE <<>>
 
 (* ----------------------------- design-level statements --------------------- *)
 \* two different positions never have the same path: with BIP32 (C03: a path determines the key, different paths give
